@@ -8,7 +8,7 @@
 use num_complex::Complex64;
 use qvh::*;
 use quil_rs::instruction::{
-    Call, CallArgumentError, CallArgumentResolutionError, CallResolutionError, CallSignatureError, Declaration,
+    DefaultHandler, InstructionHandler, Call, CallArgumentError, CallArgumentResolutionError, CallResolutionError, CallSignatureError, Declaration,
     ExternError, ExternParameter, ExternParameterType, ExternSignature, Instruction, Pragma, PragmaArgument,
     ResolvedCallArgument, ScalarType, UnresolvedCallArgument, Vector, MemoryReference, Offset, Sharing,
 };
@@ -106,7 +106,11 @@ fn enc_lex(text: &str) -> Sexp {
 }
 
 fn enc_from_str(text: &str) -> Sexp {
-    match ExternSignature::from_str(text) {
+    let r = ExternSignature::from_str(text);
+    if let Err(e) = &r {
+        let _ = format!("{e} {e:#} {e:?}");
+    }
+    match r {
         Ok(s) => tagged("ok", vec![enc_sig(&s)]),
         Err(ExternError::Lex(_)) => tagged("err", vec![atom("lex")]),
         Err(ExternError::Syntax(_)) => tagged("err", vec![atom("syntax")]),
@@ -149,7 +153,20 @@ enum ArgSpec {
     Imm(usize),
 }
 
-const IMMEDIATES: [(f64, f64); 4] = [(0.0, 0.0), (1.5, 0.0), (-2.0, 0.0), (1.0, 2.0)];
+/// every kind of immediate: zero, positive, negative, complex, purely imaginary negative, huge, subnormal, -0.0,
+/// infinite, NaN (values are copied, never inspected, by resolution)
+const IMMEDIATES: [(f64, f64); 10] = [
+    (0.0, 0.0),
+    (1.5, 0.0),
+    (-2.0, 0.0),
+    (1.0, 2.0),
+    (0.0, -3.5),
+    (1.7976931348623157e308, -1.7976931348623157e308),
+    (5e-324, 0.0),
+    (-0.0, 0.0),
+    (f64::INFINITY, f64::NEG_INFINITY),
+    (f64::NAN, 0.0),
+];
 
 fn enc_arg(a: &ArgSpec) -> Sexp {
     match a {
@@ -199,6 +216,8 @@ fn sh(parent: &str, offsets: &[(u64, ScalarType)]) -> Sh {
 }
 
 struct CallCase {
+    /// `Call::try_new` (validates the name) or the struct literal (public fields, no validation)
+    direct: bool,
     regions: Vec<Region>,
     externs: Vec<(String, SigSpec)>,
     name: String,
@@ -228,6 +247,7 @@ fn call_case(ctx: &mut Ctx, c: &CallCase) {
             tagged("externs", c.externs.iter().map(|(n, s)| tagged("e", vec![st(n.clone()), enc_sigspec(s)])).collect()),
             st(c.name.clone()),
             tagged("args", c.args.iter().map(enc_arg).collect()),
+            tagged("how", vec![atom(if c.direct { "direct" } else { "new" }), boolean(validate_user_identifier(&c.name).is_ok())]),
         ],
     );
     ctx.case(input, || {
@@ -266,27 +286,190 @@ fn call_case(ctx: &mut Ctx, c: &CallCase) {
                 ArgSpec::Imm(k) => UnresolvedCallArgument::Immediate(Complex64::new(IMMEDIATES[*k].0, IMMEDIATES[*k].1)),
             })
             .collect();
-        let call = match Call::try_new(c.name.clone(), args) {
-            Ok(c) => c,
-            Err(_) => return tagged("callnameerr", vec![]),
+        let call = if c.direct {
+            Call { name: c.name.clone(), arguments: args }
+        } else {
+            match Call::try_new(c.name.clone(), args) {
+                Ok(c) => c,
+                Err(e) => {
+                    let _ = format!("{e} {e:?}");
+                    return tagged("callnameerr", vec![]);
+                }
+            }
         };
-        match call.resolve_arguments(&program.memory_regions, &map) {
+        // sibling observation: the memory accesses the default handler reports for the same CALL
+        let accesses = match DefaultHandler.memory_accesses(&map, &Instruction::Call(call.clone())) {
+            Ok(a) => {
+                let mut reads: Vec<String> = a.reads.into_iter().collect();
+                let mut writes: Vec<String> = a.writes.into_iter().collect();
+                reads.sort();
+                writes.sort();
+                tagged(
+                    "acc",
+                    vec![
+                        tagged("reads", reads.into_iter().map(st).collect()),
+                        tagged("writes", writes.into_iter().map(st).collect()),
+                        boolean(a.captures.is_empty()),
+                    ],
+                )
+            }
+            Err(e) => {
+                let _ = format!("{e} {e:?}");
+                tagged("accerr", vec![])
+            }
+        };
+        let outcome = match call.resolve_arguments(&program.memory_regions, &map) {
             Ok(rs) => tagged("ok", rs.iter().map(enc_resolved).collect()),
-            Err(CallResolutionError::NoMatchingExternInstruction(_)) => tagged("noextern", vec![]),
-            Err(CallResolutionError::ExternSignature(_)) => tagged("externerr", vec![]),
-            Err(CallResolutionError::Signature { error, .. }) => match error {
-                CallSignatureError::ParameterCount { expected, found } => tagged("count", vec![nat(expected as u64), nat(found as u64)]),
-                CallSignatureError::Arguments(es) => tagged(
-                    "args",
-                    es.iter()
-                        .map(|e| match e {
-                            CallArgumentError::Return(e) => tagged("ret", vec![enc_argerr(e)]),
-                            CallArgumentError::Argument { index, error } => tagged("arg", vec![nat(*index as u64), enc_argerr(error)]),
-                        })
-                        .collect(),
-                ),
-            },
+            Err(e) => {
+                // formatting is part of the observation (Display, alternate, Debug)
+                let _ = format!("{e} {e:#} {e:?}");
+                match e {
+                    CallResolutionError::NoMatchingExternInstruction(_) => tagged("noextern", vec![]),
+                    CallResolutionError::ExternSignature(_) => tagged("externerr", vec![]),
+                    CallResolutionError::Signature { error, .. } => match error {
+                        CallSignatureError::ParameterCount { expected, found } => {
+                            tagged("count", vec![nat(expected as u64), nat(found as u64)])
+                        }
+                        CallSignatureError::Arguments(es) => tagged(
+                            "args",
+                            es.iter()
+                                .map(|e| match e {
+                                    CallArgumentError::Return(e) => tagged("ret", vec![enc_argerr(e)]),
+                                    CallArgumentError::Argument { index, error } => {
+                                        tagged("arg", vec![nat(*index as u64), enc_argerr(error)])
+                                    }
+                                })
+                                .collect(),
+                        ),
+                    },
+                }
+            }
+        };
+        tagged("res", vec![outcome, accesses])
+    });
+}
+
+
+// ---------------------------------------------------------------------------------------------
+// the PRAGMA EXTERN route: Program::add_instruction -> ExternPragmaMap -> ExternSignatureMap
+
+#[derive(Clone, Debug)]
+enum PArg {
+    Id(String),
+    Int(u64),
+}
+
+#[derive(Clone, Debug)]
+struct PragmaSpec {
+    pname: &'static str,
+    args: Vec<PArg>,
+    data: Option<String>,
+}
+
+fn real_pragma(p: &PragmaSpec) -> Pragma {
+    Pragma::new(
+        p.pname.to_string(),
+        p.args
+            .iter()
+            .map(|a| match a {
+                PArg::Id(s) => PragmaArgument::Identifier(s.clone()),
+                PArg::Int(n) => PragmaArgument::Integer(*n),
+            })
+            .collect(),
+        p.data.clone(),
+    )
+}
+
+fn extern_err_class(e: &ExternError) -> &'static str {
+    let _ = format!("{e} {e:#} {e:?}");
+    match e {
+        ExternError::Syntax(_) => "syntax",
+        ExternError::Lex(_) => "lex",
+        ExternError::InvalidPragmaArguments => "invalidargs",
+        ExternError::NoSignature => "nosignature",
+        ExternError::NoName => "noname",
+        ExternError::PragmaIsNotExtern => "notextern",
+        ExternError::NoReturnOrParameters => "noret",
+        ExternError::Name(_) => "name",
+    }
+}
+
+fn map_result(program: &Program) -> Sexp {
+    match program.try_extern_signature_map_from_pragma_map() {
+        Ok(map) => tagged("ok", map.iter().map(|(n, s)| tagged("e", vec![st(n.clone()), enc_sig(s)])).collect()),
+        Err((pragma, e)) => {
+            let key = match pragma.arguments.first() {
+                Some(PragmaArgument::Identifier(n)) => tagged("some", vec![st(n.clone())]),
+                _ => atom("none"),
+            };
+            tagged("err", vec![key, atom(extern_err_class(&e))])
         }
+    }
+}
+
+fn pragma_case(ctx: &mut Ctx, pragmas: &[PragmaSpec]) {
+    let input = tagged(
+        "externmap",
+        pragmas
+            .iter()
+            .map(|p| {
+                tagged(
+                    "pragma",
+                    vec![
+                        st(p.pname),
+                        tagged(
+                            "args",
+                            p.args
+                                .iter()
+                                .map(|a| match a {
+                                    PArg::Id(s) => tagged("id", vec![st(s.clone()), boolean(validate_user_identifier(s).is_ok())]),
+                                    PArg::Int(n) => tagged("int", vec![nat(*n)]),
+                                })
+                                .collect(),
+                        ),
+                        match &p.data {
+                            None => atom("nodata"),
+                            Some(t) => tagged("data", vec![st(t.clone()), enc_lex(t)]),
+                        },
+                    ],
+                )
+            })
+            .collect(),
+    );
+    ctx.case(input, || {
+        // route 1: the API
+        let mut program = Program::new();
+        for p in pragmas {
+            program.add_instruction(Instruction::Pragma(real_pragma(p)));
+        }
+        let api = map_result(&program);
+        // sibling: `ExternSignature::try_from(pragma)` on every pragma separately
+        let each = pragmas
+            .iter()
+            .map(|p| match ExternSignature::try_from(real_pragma(p)) {
+                Ok(s) => tagged("ok", vec![enc_sig(&s)]),
+                Err(e) => tagged("err", vec![atom(extern_err_class(&e))]),
+            })
+            .collect();
+        // route 2: print the pragmas, parse the text, convert again; route 3: `+` of one program per pragma
+        let text: Option<String> = pragmas.iter().map(|p| Instruction::Pragma(real_pragma(p)).to_quil().ok()).collect::<Option<Vec<_>>>().map(|v| v.join("\n"));
+        let via_text = match text.and_then(|t| Program::from_str(&t).ok()) {
+            // only comparable when the text reads back as the same pragmas
+            Some(p2) if p2.to_instructions() == program.to_instructions() => {
+                if map_result(&p2) == api {
+                    atom("same")
+                } else {
+                    atom("differs")
+                }
+            }
+            _ => atom("skipped"),
+        };
+        let mut sum = Program::new();
+        for p in pragmas {
+            sum = sum + Program::from_instructions(vec![Instruction::Pragma(real_pragma(p))]);
+        }
+        let via_add = if map_result(&sum) == api { atom("same") } else { atom("differs") };
+        tagged("res", vec![api, tagged("each", each), via_text, via_add])
     });
 }
 
@@ -375,6 +558,24 @@ fn run(ctx: &mut Ctx) {
         "(a:REAL,b:mut BIT[2])",
         "(\"a\" : REAL)",
         "(%a : REAL)",
+        "Integer",
+        "integer (a : REAL)",
+        "(a : Real)",
+        "(a : MUT REAL)",
+        "(a : Mut REAL)",
+        "(A : mut REAL)",
+        "INTEGER  (  a  :  mut   REAL [ 2 ] ,b:BIT[  ]  )",
+        "INTEGER\t(a : REAL)",
+        "(a\t:\tREAL)",
+        "    (a : REAL)",
+        "(a : REAL)    ",
+        "(a : REAL)\n",
+        "(a : REAL);",
+        "(a : REAL[02])",
+        "(a : REAL[0b10])",
+        "(a : REAL[1_0])",
+        "(a : REAL[4294967296])",
+        "(a:mut REAL[],b:mut REAL[],c:mut REAL[],d:mut REAL[],e:mut REAL[],f:mut REAL[],g:mut REAL[],h:mut REAL[])",
     ] {
         parse_case(ctx, text);
     }
@@ -420,7 +621,7 @@ fn run(ctx: &mut Ctx) {
     }
 
     let mut rng = ctx.rng(31);
-    let all_kinds = param_kinds(&TYPES, &[0, 1, 2, 7]);
+    let all_kinds = param_kinds(&TYPES, &[0, 1, 2, 7, 2_147_483_648, 4_294_967_296, u64::MAX]);
     let rand_sig = |rng: &mut Rng, max_arity: u64, names: &[&str]| {
         let n = rng.below(max_arity + 1) as usize;
         SigSpec {
@@ -498,6 +699,7 @@ fn run(ctx: &mut Ctx) {
             (ScalarType::Bit, ArgSpec::Id("ro".into())),
         ] {
             call_case(ctx, &CallCase {
+                direct: false,
                 regions: regions.clone(),
                 externs: vec![("f".into(), SigSpec { ret: Some(ret), params: vec![] })],
                 name: "f".into(),
@@ -510,6 +712,7 @@ fn run(ctx: &mut Ctx) {
                 (false, ExternParameterType::FixedLengthVector(Vector::new(ret, 1))),
             ] {
                 call_case(ctx, &CallCase {
+                    direct: false,
                     regions: regions.clone(),
                     externs: vec![("f".into(), SigSpec { ret: None, params: vec![("p".into(), m, t)] })],
                     name: "f".into(),
@@ -574,7 +777,7 @@ fn run(ctx: &mut Ctx) {
                 }
                 sequences(&few, n + 1, n + 1, &mut |l| lists.push(l.to_vec()));
                 for l in lists {
-                    call_case(ctx, &CallCase { regions: regions.clone(), externs: vec![("foo".into(), s.clone())], name: "foo".into(), args: l });
+                    call_case(ctx, &CallCase { direct: false, regions: regions.clone(), externs: vec![("foo".into(), s.clone())], name: "foo".into(), args: l });
                 }
             }
         }
@@ -599,6 +802,10 @@ fn run(ctx: &mut Ctx) {
         ("sq", ScalarType::Bit, 1, sh("o1", &[])),
         ("su", ScalarType::Real, 1, sh("nope", &[])),
         ("sc", ScalarType::Integer, 1, sh("so", &[])),
+        // boundary lengths
+        ("g32", ScalarType::Integer, 4_294_967_296, None),
+        ("g31", ScalarType::Real, 2_147_483_648, None),
+        ("gmax", ScalarType::Bit, u64::MAX, None),
     ];
     for _ in 0..(if quick { 20_000 } else { 400_000 }) {
         let regions: Vec<Region> =
@@ -623,11 +830,14 @@ fn run(ctx: &mut Ctx) {
                 externs.push(("bar".to_string(), other));
             }
         }
-        let name = match rng.below(12) {
+        let name = match rng.below(16) {
             0 => "bar",
             1 => "baz",
+            // names `Call::try_new` must reject (reserved / malformed); the struct literal accepts them
+            2 => *rng.pick(&["H", "pi", "mut", "a-", "DAGGER", "", "1x", "INTEGER"]),
             _ => "foo",
         };
+        let direct = rng.chance(1, 4);
         let target = externs.iter().find(|(n, _)| n == name).map(|(_, s)| s.clone()).unwrap_or(sig.clone());
         // arguments: mostly fitting the target signature, each perturbed with probability 1/4
         let mut args = Vec::new();
@@ -642,8 +852,11 @@ fn run(ctx: &mut Ctx) {
         };
         let random_arg = |rng: &mut Rng| match rng.below(3) {
             0 => ArgSpec::Id(if rng.chance(1, 8) { "nope".to_string() } else { rng.pick(&region_pool).0.to_string() }),
-            1 => ArgSpec::Ref(if rng.chance(1, 8) { "nope".to_string() } else { rng.pick(&region_pool).0.to_string() }, rng.below(3)),
-            _ => ArgSpec::Imm(rng.below(4) as usize),
+            1 => ArgSpec::Ref(
+                if rng.chance(1, 8) { "nope".to_string() } else { rng.pick(&region_pool).0.to_string() },
+                if rng.chance(1, 10) { *rng.pick(&[u64::MAX, 4_294_967_296, 9_007_199_254_740_993]) } else { rng.below(3) },
+            ),
+            _ => ArgSpec::Imm(rng.below(IMMEDIATES.len() as u64) as usize),
         };
         if let Some(t) = target.ret {
             let n = fitting_region(&mut rng, t, None);
@@ -653,7 +866,7 @@ fn run(ctx: &mut Ctx) {
             args.push(match t {
                 ExternParameterType::Scalar(t) => {
                     if !*m && rng.chance(1, 3) {
-                        ArgSpec::Imm(rng.below(4) as usize)
+                        ArgSpec::Imm(rng.below(IMMEDIATES.len() as u64) as usize)
                     } else {
                         let n = fitting_region(&mut rng, *t, None);
                         if rng.chance(1, 3) {
@@ -679,6 +892,93 @@ fn run(ctx: &mut Ctx) {
         if rng.chance(1, 12) {
             args.push(random_arg(&mut rng));
         }
-        call_case(ctx, &CallCase { regions, externs, name: name.to_string(), args });
+        // argument lists shorter / longer than the signature by many
+        if rng.chance(1, 40) {
+            args.clear();
+        }
+        if rng.chance(1, 40) {
+            for _ in 0..(2 + rng.below(12)) {
+                args.push(random_arg(&mut rng));
+            }
+        }
+        call_case(ctx, &CallCase { direct, regions, externs, name: name.to_string(), args });
+    }
+
+    // ---- 5. the PRAGMA EXTERN route: nameless / integer-first / multi-argument pragmas, missing and malformed
+    // signatures, reserved extern names, duplicate names (the last definition wins and keeps the first position) ----
+    {
+        let shapes = |n: &str, m: &str| -> Vec<Vec<PArg>> {
+            vec![
+                vec![],
+                vec![PArg::Id(n.into())],
+                vec![PArg::Id(n.into()), PArg::Id(m.into())],
+                vec![PArg::Int(3)],
+                vec![PArg::Int(3), PArg::Id(n.into())],
+                vec![PArg::Id(n.into()), PArg::Int(3)],
+            ]
+        };
+        let datas: Vec<Option<String>> = [
+            None,
+            Some("INTEGER"),
+            Some("(a : REAL)"),
+            Some("INTEGER (a : mut BIT[2], b : REAL[])"),
+            Some(""),
+            Some("()"),
+            Some("(H : REAL)"),
+            Some("(a : REAL"),
+            Some("integer"),
+            Some("\""),
+            Some("(a : REAL) # c"),
+            Some("  OCTET  "),
+        ]
+        .iter()
+        .map(|d| d.map(str::to_string))
+        .collect();
+        let mut singles = Vec::new();
+        for n in ["foo", "H", "x-1", "mut", "pi"] {
+            for args in shapes(n, "bar") {
+                for d in &datas {
+                    singles.push(PragmaSpec { pname: "EXTERN", args: args.clone(), data: d.clone() });
+                }
+            }
+        }
+        for p in &singles {
+            pragma_case(ctx, std::slice::from_ref(p));
+        }
+        for pname in ["extern", "EXTERNS", "Extern"] {
+            pragma_case(ctx, &[PragmaSpec { pname, args: vec![PArg::Id("foo".into())], data: Some("INTEGER".into()) }]);
+        }
+        // pairs and triples over a small pool: duplicates, an invalid one before/after a valid one
+        let pool: Vec<PragmaSpec> = vec![
+            PragmaSpec { pname: "EXTERN", args: vec![PArg::Id("foo".into())], data: Some("INTEGER".into()) },
+            PragmaSpec { pname: "EXTERN", args: vec![PArg::Id("foo".into())], data: Some("(a : REAL)".into()) },
+            PragmaSpec { pname: "EXTERN", args: vec![PArg::Id("bar".into())], data: Some("BIT (v : mut OCTET[3])".into()) },
+            PragmaSpec { pname: "EXTERN", args: vec![PArg::Id("foo".into())], data: None },
+            PragmaSpec { pname: "EXTERN", args: vec![PArg::Id("foo".into()), PArg::Id("bar".into())], data: Some("INTEGER".into()) },
+            PragmaSpec { pname: "EXTERN", args: vec![], data: Some("INTEGER".into()) },
+            PragmaSpec { pname: "EXTERN", args: vec![PArg::Int(1)], data: Some("REAL".into()) },
+            PragmaSpec { pname: "EXTERN", args: vec![PArg::Id("H".into())], data: Some("INTEGER".into()) },
+            PragmaSpec { pname: "EXTERN", args: vec![PArg::Id("bar".into())], data: Some("(a : REAL".into()) },
+            PragmaSpec { pname: "OTHER", args: vec![PArg::Id("foo".into())], data: Some("garbage".into()) },
+            PragmaSpec { pname: "EXTERN", args: vec![PArg::Id("baz".into())], data: Some("REAL (x : INTEGER, y : mut REAL[])".into()) },
+            PragmaSpec { pname: "EXTERN", args: vec![PArg::Id("bar".into())], data: Some("OCTET".into()) },
+        ];
+        let valid: Vec<PragmaSpec> = [0usize, 1, 2, 10, 11, 9].iter().map(|&i| pool[i].clone()).collect();
+        sequences(&pool, 2, if quick { 2 } else { 3 }, &mut |ps| pragma_case(ctx, ps));
+        for _ in 0..(if quick { 1500 } else { 40_000 }) {
+            let n = 1 + rng.below(5) as usize;
+            let ps: Vec<PragmaSpec> = (0..n)
+                .map(|_| {
+                    if rng.chance(4, 5) {
+                        rng.pick(&valid).clone()
+                    } else if rng.chance(1, 2) {
+                        rng.pick(&pool).clone()
+                    } else {
+                        rng.pick(&singles).clone()
+                    }
+                })
+                .collect();
+            pragma_case(ctx, &ps);
+        }
     }
 }
